@@ -231,6 +231,14 @@ def run(ctx):
             ctx.violation("concurrent:sweep-vs-connection:%s" % x["prop"], "sweep racing with connections, outcome equals no serial order: %s" % x["detail"], x)
         elif x.get("kind") == "summary":
             ctx.stage("R", sweep_vs_connection={k: v for k, v in x.items() if k != "kind"})
+    # duplicate burst without gates: 8 workers ingest one registration at the same instant; the outcome must be the serial one
+    bp2 = os.path.join(ctx.scratch, "burst.ndjson")
+    ctx.go_test(PKG, FILES, "lib", "^TestVerifDuplicateBurst$", env={"VERIF_OUT": bp2, "VERIF_ROUNDS": 1500 if thorough else 250}, timeout=900)
+    for x in ctx.read_results(bp2):
+        if x.get("kind") == "prop":
+            ctx.violation("concurrent:duplicate-burst:%s" % x["prop"], "duplicate burst, outcome equals no serial order: %s" % x["detail"], x)
+        elif x.get("kind") == "summary":
+            ctx.stage("R", duplicate_burst={k: v for k, v in x.items() if k != "kind"})
     ctx.stage("R", race_reports=nraces, ms_per_variant=ms)
 
     ctx.cov["evaluations"] = summ[0]["behaviours"] + len(traces)
